@@ -301,6 +301,20 @@ pub fn mutants(p: &Parent) -> Vec<Mutant> {
         ("unsupported-directive", "equ x 5".into()),
         ("unsupported-directive", "section data".into()),
     ];
+    // the same name errors as the very first code statement of the file (every code label is still ahead)
+    for (class, stmt) in [
+        ("offset-of-code-label", format!("mov bx, offset {}", some_label)),
+        ("offset-of-code-label", "mov bx, offset start".to_string()),
+        ("offset-of-code-label", format!("MOV AX, WORD [OFFSET {}]", some_label)),
+        ("code-label-as-data-operand", format!("mov al, byte {}", some_label)),
+        ("code-label-as-data-operand", "inc word start".to_string()),
+        ("offset-of-unknown-name", "mov bx, offset nosuch".to_string()),
+        ("unknown-name-as-data-operand", "mov al, byte nosuch".to_string()),
+        ("call-non-procedure", format!("call {}", some_label)),
+        ("call-non-procedure", "call start".to_string()),
+    ] {
+        push(class, format!("inserted '{}' as the first code statement", stmt), insert(first_code, &stmt), first_code);
+    }
     if let Some(pn) = &some_proc {
         for mn in ["jmp", "jz", "loop", "JNBE", "jcxz"] {
             inserted.push(("undefined-jump-target", format!("{} {}", mn, pn)));
